@@ -42,7 +42,7 @@ var codecNames = [nCodecs]string{"ASCII", "Latin1", "UCS2", "GB18030", "GSM7Unpa
 func codec(k int, b []byte) dc.Codec {
 	switch k {
 	case cASCII:
-		return dc.Ascii(string(b))
+		return dc.Ascii(b) // conversion from the caller's buffer, as for the other codecs
 	case cLatin1:
 		return dc.Latin1(b)
 	case cUCS2:
@@ -109,8 +109,21 @@ func check(c Case) (*vk.Violation, bool) {
 	name := codecNames[c.Codec]
 	var enc, dec []byte
 	var err, derr error
-	if pn := vk.Guarded("coding", name+"/hang", func() any { return c }, func() { enc, err = codec(c.Codec, []byte(s)).Encode() }); pn != "" {
+	in := []byte(s)
+	if pn := vk.Guarded("coding", name+"/hang", func() any { return c }, func() { enc, err = codec(c.Codec, in).Encode() }); pn != "" {
 		return vk.Violf(name+"/encode-panic", c, "%s.Encode(%q) panicked\n%s", name, s, pn), false
+	}
+	if err == nil && vk.RetainEnabled {
+		// the caller reuses its input buffer at once; the result must be unaffected (and is retained:
+		// later calls must not change it either)
+		before := append([]byte{}, enc...)
+		for i := range in {
+			in[i] = 0xA5
+		}
+		if !bytes.Equal(enc, before) {
+			return vk.Violf(name+"/encode-result-aliases-input", c, "%s.Encode(%q): the result changed when the caller overwrote its input buffer", name, s), true
+		}
+		vk.Retain(name+".Encode", enc)
 	}
 	if err != nil {
 		if mustAccept(c.Codec, s) {
@@ -121,8 +134,19 @@ func check(c Case) (*vk.Violation, bool) {
 	if mustRefuse(c.Codec, s) {
 		return vk.Violf(name+"/accepts-outside-repertoire", c, "%s.Encode(%q) = %x accepted a character outside the repertoire", name, s, enc), true
 	}
-	if pn := vk.Guarded("coding", name+"/hang", func() any { return c }, func() { dec, derr = codec(c.Codec, enc).Decode() }); pn != "" {
+	encIn := append([]byte{}, enc...)
+	if pn := vk.Guarded("coding", name+"/hang", func() any { return c }, func() { dec, derr = codec(c.Codec, encIn).Decode() }); pn != "" {
 		return vk.Violf(name+"/decode-panic", c, "%s.Decode(%x) panicked\n%s", name, enc, pn), true
+	}
+	if derr == nil && vk.RetainEnabled {
+		before := append([]byte{}, dec...)
+		for i := range encIn {
+			encIn[i] = 0x5A
+		}
+		if !bytes.Equal(dec, before) {
+			return vk.Violf(name+"/decode-result-aliases-input", c, "%s.Decode: the decoded value changed when the caller overwrote its input buffer", name), true
+		}
+		vk.Retain(name+".Decode", dec)
 	}
 	if derr == nil && string(dec) == s {
 		return nil, true
@@ -202,6 +226,11 @@ func checkProto(c ProtoCase) *vk.Violation {
 		}
 		return nil
 	}
+	// the protocol-level encoder (encode-and-split entry point) for a text that fits one message: whatever
+	// coding it reports, the protocol-level decoder for that coding must give the text back
+	if v := checkProtoEncoder(c, s); v != nil {
+		return v
+	}
 	enc, err := codec(encK, []byte(s)).Encode()
 	if err != nil {
 		return nil // not representable: nothing to invert
@@ -247,6 +276,9 @@ func checkHelpers(c HelperCase) *vk.Violation {
 	if pn != "" {
 		return vk.Violf("Utf8ToUcs2/panic", c, "panic\n%s", pn)
 	}
+	vk.RetainString("Utf8ToUcs2", a)
+	vk.RetainString("Utf8ToUcs2Back", b2)
+	vk.RetainString("Utf8ToUcs2Pooled", p)
 	if err != nil || !bytes.Equal([]byte(a), want) {
 		return vk.Violf("Utf8ToUcs2/value", c, "Utf8ToUcs2(%q) = %x, %v; utf16 BE is %x", s, a, err, want)
 	}
@@ -295,6 +327,8 @@ func TestScalarsExhaustive(t *testing.T) {
 		contexts = append(contexts, func(c string) string { return c + "a" }, func(c string) string { return "ab" + c + "cd" })
 	}
 	lo, hi := env.Range(0x110000)
+	vk.RetainEnabled = false
+	defer func() { vk.RetainEnabled = true }()
 	var accepted, refused [nCodecs]int64
 	var n int64
 	for r := lo; r < hi; r++ {
@@ -349,13 +383,36 @@ var pools = func() [nCodecs][]rune {
 		}
 	}
 	p[cGSMUnpacked] = append(p[cGSMUnpacked], '@', '@', '\r', '\r', '[', '€', 0x1B, 0xE7, '`')
+	// combining marks (a decomposed accent is NOT the precomposed GSM letter) and singleton canonical
+	// equivalents of GSM letters: Ohm, Kelvin, Angstrom signs, Greek question mark
+	p[cGSMUnpacked] = append(p[cGSMUnpacked], 0x0301, 0x0300, 0x0308, 0x0303, 0x030A, 0x0327, 0x2126, 0x212A, 0x212B, 0x037E)
 	p[cGSMPacked] = p[cGSMUnpacked]
+	p[cLatin1] = append(p[cLatin1], 0x0301, 0x0308, 0x212B)
+	p[cASCII] = append(p[cASCII], 0x0301, 0x212A)
+	p[cUCS2] = append(p[cUCS2], 0x0301, 0x200D, 0xFE0F)
 	return p
 }()
 
 func drawText(t *rapid.T, k int) string {
 	n := rapid.OneOf(rapid.IntRange(0, 24), rapid.IntRange(0, 400), rapid.SampledFrom([]int{7, 8, 9, 15, 16, 17, 159, 160, 161})).Draw(t, "n")
 	rs := rapid.SliceOfN(rapid.OneOf(rapid.SampledFrom(pools[k]), rapid.SampledFrom(pools[k]), rapid.SampledFrom(pools[k]), rapid.Rune()), n, n).Draw(t, "runes")
+	if rapid.IntRange(0, 7).Draw(t, "decomposed") == 0 {
+		// a base letter directly followed by a combining mark that would compose to a letter of the repertoire
+		pairs := []string{"e\u0301", "a\u0300", "u\u0308", "n\u0303", "A\u030a", "C\u0327", "o\u0308", "E\u0301"}
+		at := rapid.IntRange(0, len(rs)).Draw(t, "decomposedat")
+		pr := []rune(pairs[rapid.IntRange(0, len(pairs)-1).Draw(t, "pair")])
+		rs = append(rs[:at:at], append(pr, rs[at:]...)...)
+	}
+	if rapid.IntRange(0, 39).Draw(t, "verylong") == 0 {
+		// longer than any internal 4 KiB buffer
+		base := rs
+		if len(base) == 0 {
+			base = []rune("a\u4e2d")
+		}
+		for len(rs) < 2500 {
+			rs = append(rs, base...)
+		}
+	}
 	s := string(rs)
 	if !utf8.ValidString(s) {
 		return "x"
@@ -449,4 +506,46 @@ func TestUcs2Helpers(t *testing.T) {
 		hc := HelperCase{vk.Hex([]byte(s))}
 		rec.ReportSeq(t, "helpers", hc, func() *vk.Violation { return checkHelpers(hc) })
 	})
+}
+
+func checkProtoEncoder(c ProtoCase, s string) *vk.Violation {
+	if s == "" || len(s) > 60 {
+		return nil
+	}
+	for _, r := range s {
+		if (r >= 0xE000 && r <= 0xE864) || ref.Latin1Disputed(r) {
+			return nil
+		}
+	}
+	ctx := context.Background()
+	var parts [][]byte
+	var act int
+	var err error
+	var out string
+	pn := vk.Guarded("proto", c.Proto+"/hang", func() any { return c }, func() {
+		if c.Proto == "cmpp" {
+			var a dc.CMPPDataCoding
+			parts, a, err = sms.EncodeCMPPContentAndSplit(ctx, s, dc.CMPPDataCoding(c.Coding), 1)
+			act = int(a)
+		} else {
+			var a dc.SMPPDataCoding
+			parts, a, err = sms.EncodeSMPPContentAndSplit(ctx, s, dc.SMPPDataCoding(c.Coding), 1)
+			act = int(a)
+		}
+	})
+	if pn != "" {
+		return vk.Violf(c.Proto+"/encoder-panic", c, "panic\n%s", pn)
+	}
+	if err != nil || len(parts) != 1 || (c.Proto == "smpp" && act == 99) {
+		return nil
+	}
+	if c.Proto == "cmpp" {
+		out, err = sms.DecodeCMPPCContent(ctx, string(parts[0]), uint8(act))
+	} else {
+		out, err = sms.DecodeSMPPCContent(ctx, string(parts[0]), act)
+	}
+	if err != nil || out != s {
+		return vk.Violf(fmt.Sprintf("%s/encoder-coding-%d-not-inverted", c.Proto, act), c, "%s: the protocol-level encoder reported coding %d for %q (requested %d), the protocol-level decoder for that coding returns %q, %v", c.Proto, act, s, c.Coding, out, err)
+	}
+	return nil
 }
